@@ -276,15 +276,14 @@ def stepReq (d : DState) (f : List String) : DState × String :=
     let before := Model.abs d.s
     let sp := Spec.step ieee now before req
     let after := Model.abs o.s
-    let dev : Bool :=
-      if d.s.dead then false
-      else match d.pol with
-        | .c06 => decide (sp.2 ≠ o.r) || decide (sp.1 ≠ after)
-        | .c05 => false
-        | .c30 => false
+    let devAny : Bool := !d.s.dead && (decide (sp.2 ≠ o.r) || decide (sp.1 ≠ after))
+    let dev : Bool := devAny && d.pol == .c06
     let tag := pickTag o.tags <|> d.lastTag
     let lastTag := match pickTag o.tags with | some t => some t | none => d.lastTag
-    let flag := if dev then "\t#F:" ++ d.pid ++ "-" ++ (match tag with | some t => tagId t | none => "unattributed") else ""
+    -- a deviation from the data-request Spec that this domain does not report is still marked
+    -- (`#D:`), so that the independent reference knows the line is accounted for elsewhere (C06)
+    let flag := if dev then "\t#F:" ++ d.pid ++ "-" ++ (match tag with | some t => tagId t | none => "unattributed")
+                else if devAny then "\t#D:" ++ (match tag with | some t => tagId t | none => "unattributed") else ""
     ({ d with s := o.s, ck := ck, lastTag := lastTag, opNo := opNo }, showResp ck verb o.r ++ flag)
 
 
